@@ -94,6 +94,10 @@ fn main() {
         std::process::exit(2);
     };
     let out = std::io::stdout();
+    if id == "C03" && cmd == "certify" {
+        checks::c03::print_certified();
+        return;
+    }
     if id == "C12" && cmd == "child" {
         let unit: usize = arg_val(&args, "--unit").and_then(|s| s.parse().ok()).unwrap_or(0);
         checks::c12::child_traces(&ctx, unit);
